@@ -21,6 +21,7 @@ def run(tier):
     rep.rule('R18.e.3', 'after such a Reset nothing transmitted and no decision depends on pre-Reset (post-fault) state: behaviour equals a freshly started responder', floor=20)
     rep.rule('R18.d', 'constructors: an allocation failure yields NULL (or a usable automaton without its optional block), never a dereference, never a leak', floor=6)
     rep.rule('R18.g', 'the observation list stays well formed on every fault path: no store into the link field of an observation already in the list (an out-of-memory fallback that recycles a node must unlink it first)', floor=100)
+    rep.rule('R18.h', 'a station whose session table could not be allocated runs as with an empty table: the tick silences and resets the enumerator (obligation R12.d)', floor=3)
     rep.rule('R18.f', 'diagnostics on fault paths: every printf-like call has a literal format whose conversions match its arguments', floor=40)
     res = safety.run_all(kinds=['frame.mtu', 'frame.fallback', 'ctors', 'api', 'automata'] + ['tick:%d:%d' % (m, e) for m in range(3) for e in range(3)])
     for entry, r in sorted(res.items()):
@@ -70,6 +71,9 @@ def run(tier):
     from .fmtcheck import check_formats
     # fault paths are where the warnings are logged: a conversion reading a missing or wrong-typed argument crashes exactly there
     rep.analysed['printf_like_calls'] = check_formats(rep, load_core('systemd'), 'R18.f')
+    from .c12 import decide as tick_decide
+    from .c07 import RuleView
+    tick_decide(RuleView(rep, {'R12.d': 'R18.h'}), load_core('systemd'))
     rinfo = recovery(rep, load_core('systemd'), 'R18.e')
     rep.analysed.update({'fault_paths_of_parseFrame': nfault, 'entries': sorted(res), 'reset_recovery': rinfo})
     return finish(rep, 'proof',
